@@ -387,7 +387,7 @@ class Ctx:
             cov["evaluations"] = max(cov["evaluations"], 1)
         os.makedirs(os.path.join(VERIF, "evidence"), exist_ok=True)
         evpath = os.path.join(VERIF, "evidence", "%s.json" % self.pid)
-        if not self.replay:
+        if not self.replay and not os.environ.get("VERIF_NO_EVIDENCE"):
             with open(evpath, "w") as fh:
                 json.dump(ev, fh, indent=1, sort_keys=True, default=str)
                 fh.write("\n")
